@@ -6,7 +6,7 @@ PROP = dict(
         "ntp_proto::packet::NtpPacket::{nts_poll_message,nts_poll_message_v5}",
     ],
     bounds="stash: ONE store/get from every raw ring state (read<8, valid<=8, arbitrary 1-byte cookies, arbitrary stale free slots) checked through the full "
-           "abstraction function (= inductive step for histories of any length), plus 4 (quick) / 10 (thorough) consecutive operations from every raw state; "
+           "abstraction function (= inductive step for histories of any length), plus 4 (quick) / 6 (thorough) consecutive operations from every raw state; "
            "poll: every stash fill 0..=8, cookie length 0..=64 with symbolic content (handle_timer) / 0..=32 and every count 1..=8 (request builders), NTPv4 and NTPv5, "
            "any reach/tries/poll desire, every random draw",
     outside="the wire encoding of the request (NtpPacket::serialize) is not part of these queries: the property is decided on (a) what handle_timer hands to the request builder "
@@ -24,7 +24,7 @@ PROP = dict(
         H(NH, "c13", "c13_stash_init", "a new stash is the empty queue", timeout=120),
         H(NH, "c13", "c13_stash_step", "one store/get from any raw state preserves 'ring window = FIFO of the newest 8' (get = oldest, each position at most once, len/gap agree)", timeout=300),
         H(NH, "c13", "c13_stash_seq4", "4 consecutive symbolic store/get operations from any raw state against a serial-number FIFO model", timeout=300),
-        H(NH, "c13", "c13_stash_seq10", "10 consecutive symbolic store/get operations", tier="thorough", timeout=1800),
+        H(NH, "c13", "c13_stash_seq6", "6 consecutive symbolic store/get operations", tier="thorough", timeout=1800),
         H(NH, "c13", "c13_poll_timer_v4", "NTPv4 NTS handle_timer, all stash fills: cookie handed to the request builder = oldest (every byte), consumed from the stash, rest keeps order, "
           "count = min(missing, fit), pending uid = the request's", timeout=300),
         H(NH, "c13", "c13_poll_timer_v5", "same for NTPv5", timeout=300),
